@@ -838,7 +838,7 @@ func AggregateWriteVariants(w io.Writer, start, end int, appendSNP bool, thresho
 	}
 
 	sort.SliceStable(order, func(i, j int) bool {
-		return order[i].Position < order[j].Position || (order[i].Position == order[j].Position && order[i].Changetype < order[j].Changetype) || (order[i].Position == order[j].Position && order[i].Changetype == order[j].Changetype && order[i].QueAl < order[j].QueAl)
+		return order[i].Position < order[j].Position || (order[i].Position == order[j].Position && order[i].Changetype < order[j].Changetype) || (order[i].Position == order[j].Position && order[i].Changetype == order[j].Changetype && order[i].QueAl < order[j].QueAl) || (order[i].Position == order[j].Position && order[i].Changetype == order[j].Changetype && order[i].QueAl == order[j].QueAl && order[i].Representation < order[j].Representation)
 	})
 
 	for _, V := range order {
